@@ -34,6 +34,7 @@ def page_cases(th):
                  ['resize 0 %d' % c, 'append 0 7e'],
                  ['reserve 0 %d' % (c + 1), 'resize 0 %d' % (c + 1), 'rmfront 0 %d' % c, 'prepend 0 7c'],
                  ['resize 0 %d' % (c - 1), 'append 0 61', 'append 0 62'],
+                 ['resize 0 %d' % c, 'reserve 0 %d' % (c + 7), 'rmfront 0 %d' % (c - 2), 'append 0 7e'],     # reserve copies a window of c bytes
                  ['resize 0 %d' % (c - 1), 'rmfront 0 %d' % (c - 3), 'prepend 0 7c', 'resize 0 %d' % c, 'prepend 0 7b'],
                  ['rmfront 0 1', 'resize 0 %d' % c, 'rmback 0 %d' % (c - 2), 'appendb 0 0', 'prependat 0 1 2'],
                  ['assign 0 ' + hexs(_bytes(c, 0x41)), 'rmfront 0 %d' % (c - 1), 'assign 0 ' + hexs(_bytes(c + 1, 0x51)), 'rmfront 0 %d' % c]]
@@ -87,6 +88,8 @@ def huge_cases(th, copies_ok):
             out.append(big(['newcap %d' % (B + 100), 'append 0 616263', 'resize 0 %d' % (B + 5), 'rmfront 0 1', 'prepend 0 7c7c',
                             'rmfront 0 %d' % (B + 4), 'append 0 7e']))
             out.append(big(['newdata 616263', 'resize 0 %d' % (B + 5), 'prepend 0 7c7c', 'rmfront 0 %d' % (B + 5), 'append 0 7e']))
+            # COPY (2 GiB): reserve on a window of 2^31+5 bytes (a signed 32-bit size)
+            out.append(big(['newdata 616263', 'resize 0 %d' % (H + 5), 'reserve 0 %d' % (H + 200), 'rmfront 0 %d' % (H + 3), 'append 0 7e']))
     return out
 
 
@@ -644,22 +647,29 @@ class C08(Check):
     technique = ('machine-checked proof in Coq about a hand-written Gallina model with explicit memory (allocation = list of '
                  'capacity+1 cells, attached range = immutable byte list, every access through bounds-checked rd/wr; caller-chosen '
                  'sizes are binary numbers up to 2^64-1 and the usize sums capacity+1 and size+size are written with their wrap-around); '
-                 'model tied to the code by an extracted-model vs ASan/UBSan-implementation correspondence check with guard bytes')
-    level_text = ('Theorems in Coq (26, no axioms), for every history of new/copy/attach/=/assign/prepend/append/resize/reserve/'
+                 'model tied to the code by an extracted-model vs ASan/UBSan-implementation correspondence check with guard bytes and an '
+                 'allocation ledger; windows of more than 2^32 bytes are run for real (untouched pages) against a Python transcription '
+                 'of spec and model that is itself compared with the extracted ones on every case it can express')
+    level_text = ('Theorems in Coq (28, no axioms), for every history of new/copy/attach/=/assign/prepend/append/resize/reserve/'
                   'removeFront/removeBack/clear/free/swap/== over any number of Buffer variables, all sizes (every usize argument up to '
                   '2^64-1) and front/back offsets, including v = v, v.append(v), v.prepend(v), calls whose source pointer lies inside '
                   'the Buffer itself (v.append(v+off,n), v.assign(v+off,n), v.prepend(v+off,n)) and histories mixing attach with owning '
                   'operations: (1) C08_memory_safe(_step): the model never produces OutOfBounds / WriteForeign / Overlap / BadState; '
                   'the two errors left are BadArg, exactly when the reference object rejects the history (operand variable missing, a '
                   'data range longer than PTRDIFF_MAX, a pointer "inside v" that is not), and AllocFail, exactly when the reference says '
-                  'the request cannot be satisfied (more than PTRDIFF_MAX bytes for data + terminator); C08_allocate: '
+                  'the request cannot be satisfied (more than PTRDIFF_MAX bytes for data + terminator) or the operation is a reserve '
+                  'for that much room (BufferSpec.hint_unsat); C08_allocate: '
                   'Buffer::allocate(c) yields c+1 cells for c < PTRDIFF_MAX and fails for every other c including 2^64-1 where c+1 wraps '
                   'to 0; C08_allocate_wrapping_refuted: the request formed before fixes/C08/10 succeeds with 0 cells for c = 2^64-1 and '
                   'the terminator write is out of bounds; C08_sums_do_not_wrap: the usize sums in append/prepend are the mathematical '
-                  'sums on every reachable state; (2) C08_refines_queue(_step): the exposed bytes agree with the reference byte queue '
-                  'wherever the queue is specified (bytes newly exposed by a growing resize are None in the reference), == answers '
-                  'agree; per method and per branch (prepend: head-room / in-place shift / reallocate; resize: reallocate / in place / '
-                  'compact to front / non-owning) C08_assign, C08_prepend, C08_resize, C08_append, C08_append_self, C08_append_at, '
+                  'sums on every reachable state; (2) C08_refines_queue(_step, _nohint): the exposed bytes agree with the reference byte '
+                  'queue wherever the queue is specified (bytes newly exposed by a growing resize are None in the reference), == answers '
+                  'agree; reserve is a no-op of the reference for EVERY argument (the text does not say what a reserve that no allocation '
+                  'can follow does; the reference accepts an unchanged Buffer as well as a failed request there), C08_reserve_hint: the '
+                  'model, like the code, stops there with a failed allocation, and the history theorem reads "the model stopped at such a '
+                  'hint, or the reference decides the outcome" (C08_refines_queue_nohint: the exact three-way statement for histories '
+                  'without one); per method and per branch (prepend: head-room / in-place shift / reallocate; resize: reallocate / in '
+                  'place / compact to front / non-owning) C08_assign, C08_prepend, C08_resize, C08_append, C08_append_self, C08_append_at, '
                   'C08_assign_at, C08_prepend_at, C08_remove_front, C08_remove_back, C08_reserve, C08_clear state the exact exposed '
                   'bytes or the allocation failure; (3) C08_terminator: in every reachable world every owning variable has the cell at '
                   'bufferEnd inside its allocation of capacity+1 cells and it holds 0; (4) C08_invariant_initial_and_preserved / '
@@ -667,38 +677,65 @@ class C08(Check):
                   'non-owning => capacity = 0 and the window lies inside the attached range or is the empty window on a _capacity '
                   'field.  The model is tied to the code by running the extracted model, the extracted reference queue and the '
                   'ASan/UBSan build of the working tree on the same histories: size, bytes, byte after the end, guard bytes and '
-                  'pristine copy of attached ranges, the private pointers (own/start offset/allocation size) and the answer of '
-                  'capacity() (checked against the private member) are compared after every operation.')
+                  'pristine copy of attached ranges, the private pointers (own/start offset/allocation size), the answer of '
+                  'capacity() (checked against the private member) and the number of live blocks allocated inside Buffer calls '
+                  '(= number of owning variables) are compared after every operation.')
     level_note = ('The theorems are about the model; the tie to Buffer.hpp is differential (correspondence only), strengthened by an '
                   'exhaustive small scope over all owning states with capacity <= 5 (8 in the thorough tier) x arguments on and one '
                   'past every branch condition x every source range inside the window x 2^64-1 and three more unsatisfiable sizes.  '
+                  'Sizes that are run: data ranges of at most 400 bytes (65538 in the stream `pages`); capacities and window sizes from '
+                  'resize / reserve / the capacity constructor up to 400, on and next to 2^8, 2^12, 5000, 2^13, 2^15, 2^16 (stream `pages`: '
+                  'every way to reach such a capacity x resize, append, prepend, compaction, reserve on and one past it; the random '
+                  'streams request them now and then), 2^31-1..2^31+2 and 2^32..2^32+300 (stream `huge`: real allocations, pages never '
+                  'touched are not committed; window offsets, head-room and removeFront/removeBack arguments above 2^32; one history, '
+                  'four in the thorough tier, in which the code copies 4 GiB - left out, and the stream note says so, when less than '
+                  '12 GB are available), and the unsatisfiable sizes >= 2^63-1.  NOT run: sizes between about 66000 and 2^31-2, between '
+                  '2^31+3 and 2^32-1, and between 2^32+301 and 2^63-2; data ranges (append/prepend/assign arguments) above 65538 bytes.  '
+                  'The extracted model holds an allocation as a list of cells and runs up to about 2^16 (2^20 with a raised stack); the '
+                  'cases of `huge` are printed in compact form (size, first and last 8 bytes, private pointers) and judged against a '
+                  'Python transcription of BufferSpec (run-length queue `RQ`) and of the window arithmetic of BufferModel (`Sh`) in this '
+                  'file; in every run the transcription is compared with the extracted spec and model on all cases it can express (all '
+                  'but == and source-inside-the-Buffer calls; the count is in the rule text), a difference aborts the check.  '
                   'Validated by correspondence only (not modelled): the order of delete[] relative to the copy out of the old '
-                  'storage and double free (AddressSanitizer; this is what exhibited fixes/C08/12), operator!= / isEmpty consistency, '
-                  'the Server.cpp send backlog (uses append/removeFront only; not driven).  A request new[] cannot satisfy ends the '
-                  'harness process (sanitizer report "out of memory", line `! oom`); the model and the reference predict that line '
-                  'for every capacity >= 2^63-1, and the generators use only sizes <= 400 or >= 2^63-1, so the outcome of requests '
-                  'between 2 GB and PTRDIFF_MAX (which the model says succeed) is never exercised.  Modelled as input: the bytes handed '
+                  'storage and double free (AddressSanitizer; this is what exhibited fixes/C08/12), operator!= / isEmpty consistency.  '
+                  'The Server.cpp send backlog (append, removeFront, isEmpty and free of a Buffer per client, Server.cpp:343-350 and '
+                  '459-463) is not driven through the server; the four calls are driven on Buffer objects directly and nothing the server '
+                  'does there can break the Buffer text.  Storage release is not part of the property text: LeakSanitizer is off, '
+                  'the harness keeps a ledger of the blocks allocated inside Buffer calls and prints their number (`live=`) in the '
+                  'model-only section, where the model says "one per owning variable" - a Buffer that drops its block without delete[] '
+                  'is reported as a correspondence break (no-failing-input-found), not as a failing input.  A request new[] cannot '
+                  'satisfy ends the harness process (sanitizer report "out of memory", line `! oom`); the model predicts that line for '
+                  'every capacity >= 2^63-1; the reference demands it for resize, the constructors, assign/append/prepend, and for '
+                  'reserve accepts it as well as an unchanged Buffer (judge: spec line `?oom ...`), so that a reserve which ignores a hint '
+                  'it cannot follow differs from the model only.  attach(0, 0) / attach of a null pointer is a precondition, not a case: after it the '
+                  'next growing call hands the null pointer to memcpy with length 0 (UBSan nonnull-attribute report in Memory::copy, '
+                  'src/Memory.cpp:16; no byte is read or written, so the property text is not touched) - ranges handed to attach are '
+                  'always malloc blocks between guard areas.  Modelled as input: the bytes handed '
                   'to attach are fresh foreign memory that nobody else changes and that does not alias a Buffer allocation; a data '
                   'pointer handed to assign/append/prepend points either outside every Buffer or at bytes inside the window of the '
                   'receiving Buffer (a pointer into its head-room or slack, or into another Buffer that shares nothing, is the first '
                   'case).  Trusted: Coq kernel, BufferSpec.v as the reading of the property text, extraction + OCaml driver, harness, '
-                  'g++ sanitizers.')
+                  'the Python transcription for the `huge` cases, g++ sanitizers.')
     rule = ''
     rule_static = ('cases = histories over 1..4 Buffer variables; four random streams steered by a shadow of the window state '
                    '(owning: head-room/slack branches; attach: attach mixed with owning ops; alias: v=v, v.append(v), v.prepend(v), '
-                   'swap(v,v), source pointers inside v; long: 60..120 ops, sizes to 200; resize/reserve/constructor sizes are <= 400 '
+                   'swap(v,v), source pointers inside v; long: 60..120 ops, sizes to 200; resize/reserve/constructor sizes are <= 400, '
+                   'with probability 1..4% one of 255..65537 around the powers of two, '
                    'or one of 2^64-1, 2^64-2, 2^64-1-size, 2^64-1-capacity, 2^63, 2^63-1, which end the history) + exhaustive stream '
                    '"branches" (every owning state with capacity <= 5, size, head-room and every attached state of length <= 4 with '
                    'front offset x every operation with arguments on and one past each branch condition, every (offset, length) inside '
                    'the window as source of append/assign/prepend, resize/reserve with 2^64-1 and one more unsatisfiable size, followed '
                    'by append+prepend) + exhaustive 2-op scope over a 47-op alphabet; removeFront/removeBack arguments include 2^64-1, '
-                   '2^64-size, 2^63; '
+                   '2^64-size, 2^63; stream "pages" (deterministic): capacity c in {255,256,257,4095,4096,4097,5000,8193,32768,65535,65536,'
+                   '65537} (16 values thorough) reached in 6 ways x 8 continuations on and one past c; stream "huge" (deterministic): 5 '
+                   'histories (9 thorough) with real allocations of 2^31+2 and 2^32+k bytes; '
                    'a case is non-trivial when the implementation\'s own dump shows at least two of {head-room > 0, capacity slack, '
                    'attached window, emptied non-owning window} and it has >= 3 mutating ops; distinct = distinct op text. ')
-    assumptions = ['operator new[] satisfies every request of at most PTRDIFF_MAX bytes (in the model) and fails every larger one; in the run, requests are <= 401 bytes or >= 2^63',
-                   'memory handed to attach() is not modified or freed by anyone else while attached and does not alias a Buffer allocation',
+    assumptions = ['operator new[] satisfies every request of at most PTRDIFF_MAX bytes (in the model) and fails every larger one; in the run, requests are <= about 66000 bytes, 2^31+3 bytes, 2^32+k bytes (k <= 301), or >= 2^63-1',
+                   'memory handed to attach() is not modified or freed by anyone else while attached and does not alias a Buffer allocation; the pointer is not null, also for length 0 (a null pointer reaches memcpy(dst, 0, 0) in the next growing call)',
                    'a raw data pointer passed to assign/append/prepend points outside every Buffer or at bytes inside the window of the receiving Buffer',
-                   'byte ranges handed in (data, attach) are at most PTRDIFF_MAX-1 bytes long']
+                   'byte ranges handed in (data, attach) are at most PTRDIFF_MAX-1 bytes long',
+                   'cases with windows above 2^32 bytes are judged by the Python transcription of BufferSpec/BufferModel in checks/C08.py (compared with the extracted ones on every smaller case it can express)']
 
     # the case splits of the proofs: every one must be aimed at in every run (see extra_checks)
     REQUIRED = ['prepend/headroom/O', 'prepend/shift/O', 'prepend/realloc/O', 'prepend/realloc/A', 'prepend/realloc/D',
@@ -758,7 +795,7 @@ class C08(Check):
         out.append(Stream('huge', huge_cases(th, copies_ok),
                           note='real allocations of 2^31+k and 2^32+k bytes (untouched pages are not committed), compact dump, expected '
                                'lines from the Python transcription of BufferSpec / BufferModel (checks/C08.py RQ, Sh); '
-                               + ('including %d histories in which the code copies 4 GiB' % (4 if th else 1) if copies_ok else
+                               + ('including %d histories in which the code copies 2 or 4 GiB' % (5 if th else 1) if copies_ok else
                                   'the histories in which the code copies 4 GiB were LEFT OUT: only %.1f GB available' % avail)))
         if th:
             core = ['prepend 1 61', 'prepend 1 6162636465', 'append 1 -', 'append 1 78797a31', 'resize 1 0', 'resize 1 2', 'resize 1 5',
@@ -782,7 +819,7 @@ class C08(Check):
     CRASH_BUDGET, HANG_BUDGET = 150, 30
     bad_crashes = hangs = 0
     gave_up = False
-    per_case_timeout = 4       # a case is a few dozen calls on buffers of at most 64 KiB (the `big` cases get 60 s)
+    per_case_timeout = 4       # a case is a few dozen calls on buffers of at most 64 KiB (the `big` cases get 120 s)
     HINT_MAY_FAIL = True       # BufferSpec.hint_unsat: the spec driver marks such lines `?oom`
 
     @staticmethod
@@ -837,7 +874,7 @@ class C08(Check):
         env = {'ASAN_OPTIONS': 'detect_leaks=0:abort_on_error=0:allocator_may_return_null=1:max_allocation_size_mb=%d:symbolize=0'
                                % (12000 if bigs else 2048)}
         wd = os.path.join(vf.BUILD, self.id, 'run')
-        pct = 60 if bigs else self.per_case_timeout
+        pct = 120 if bigs else self.per_case_timeout
         if tag.startswith('shr_') or len(cases) <= 1:
             return vf.run_exe_on_cases(self.exes['impl'], cases, wd, tag, is_impl=True, per_case_timeout=pct, env=env)
         # A tree on which most cases crash or hang must not cost more than a few minutes: the run goes in parts of 60
@@ -869,9 +906,14 @@ class C08(Check):
         fails = []
         for i, (s, o) in enumerate(zip(spec_obs, impl_obs)):
             s2, o2 = [], list(o)
+            if self.is_big(cases[i]) and o2 and o2[-1] == '! timeout':
+                # the watchdog on a case that works on 4 GiB says something about the machine (or about an implementation
+                # that touches every byte, which the text allows), not about the property: judge what was observed before it
+                o2 = o2[:-1]
+                s = s[:len(o2)]
             for k, l in enumerate(s):
                 if l.startswith('?oom '):
-                    if k < len(o) and o[k] == '! oom' and k == len(o) - 1:
+                    if k < len(o2) and o2[k] == '! oom' and k == len(o2) - 1:
                         break                                   # stopped at the hint: nothing follows, nothing to compare
                     l = l[5:]
                 s2.append(l)
@@ -933,7 +975,8 @@ class C08(Check):
         missing = [r for r in self.REQUIRED if hit.get(r, 0) == 0]
         if missing:
             raise RuntimeError('C08 generators no longer aim at proof case(s): ' + ', '.join(missing))
-        self.rule = self.rule_static + 'proof cases aimed at in this run (count): ' + ', '.join(
+        self.rule = self.rule_static + ('Python transcription compared with the extracted spec/model on %d case runs in this run; '
+                                        % getattr(self, 'crosschecked', 0)) + 'proof cases aimed at in this run (count): ' + ', '.join(
             '%s=%d' % (r, hit[r]) for r in self.REQUIRED)
 
 
